@@ -30,6 +30,8 @@ func init() {
 }
 
 var c07Mutants = []Mutant{
+	{ID: "C07-waitgroup-add-in-goroutine", Desc: "the logging fan-out raises its WaitGroup inside the goroutine it counts", Rule: "C07/waitgroup-add",
+		Edits: []Edit{{File: "logging/logging.go", Old: "\t\twg.Add(1)\n\n\t\tlf := f\n\n\t\tgo func() {\n\t\t\tlf(m)\n\n\t\t\twg.Done()\n\t\t}()", New: "\t\tlf := f\n\n\t\tgo func() {\n\t\t\twg.Add(1)\n\t\t\tdefer wg.Done()\n\n\t\t\tlf(m)\n\t\t}()"}}},
 	{ID: "C07-value-receiver", Desc: "Queue.GetDepth takes the queue by value", Rule: "C07/pointer-receivers",
 		Edits: []Edit{{File: "util/queue.go", Old: "func (q *Queue) GetDepth() int {", New: "func (q Queue) GetDepth() int {"}}},
 	{ID: "C07-poller-cancel-not-deferred", Desc: "sendRPC no longer defers the cancel of its poller context", Rule: "C07/cancel-released",
